@@ -271,6 +271,48 @@ func runR15_2(c *Ctx, r *R) {
 	}
 }
 
+// runeBelowPrivate: the store of int(rune) into lval.yys is reached only with the rune proved smaller than the
+// parser's yyPrivate constant (the first number goyacc assigns to named tokens).
+func runeBelowPrivate(c *Ctx, f *ssa.Function, cv *ssa.Convert) bool {
+	pp := c.Pkg("internal/lang/parser")
+	if pp == nil {
+		return false
+	}
+	k, ok := pp.Types.Scope().Lookup("yyPrivate").(*types.Const)
+	if !ok {
+		return false
+	}
+	private, _ := constant.Int64Val(constant.ToInt(k.Val()))
+	rn := cv.X
+	for _, b := range f.Blocks {
+		for _, ins := range b.Instrs {
+			st, ok := ins.(*ssa.Store)
+			if !ok || st.Val != ssa.Value(cv) {
+				continue
+			}
+			good := false
+			for _, cd := range pathConds(st.Block()) {
+				for _, rel := range relsOf(cd) {
+					x, y, op := rel.X, rel.Y, rel.Op
+					if y == rn {
+						x, y, op = y, x, swapOp(op)
+					}
+					if x != rn {
+						continue
+					}
+					if kk, isK := constInt(y); isK && ((op == token.LSS && kk <= private) || (op == token.LEQ && kk < private)) {
+						good = true
+					}
+				}
+			}
+			if !good {
+				return false
+			}
+		}
+	}
+	return true
+}
+
 func runR15_3(c *Ctx, r *R) {
 	f := r.Need("internal/lang/parser", "lexer.Lex")
 	if f != nil {
@@ -298,6 +340,7 @@ func runR15_3(c *Ctx, r *R) {
 			key := fmt.Sprintf("%s/return#%d", fnKey(f), n)
 			v := ret.Results[0]
 			okv, why := false, ""
+			privateBad := false
 			switch x := v.(type) {
 			case *ssa.Const:
 				if k, ok := constInt(x); ok && k >= 0 {
@@ -360,6 +403,13 @@ func runR15_3(c *Ctx, r *R) {
 									good = false
 								}
 							}
+							// ... and below the range goyacc numbers the grammar's named tokens from (yyPrivate,
+							// U+E000): a private-use rune in the source would otherwise be taken for IDENT, INTEGER,
+							// STRING or a keyword, carrying the previous token's value (D19)
+							if !runeBelowPrivate(c, f, lv) {
+								good = false
+								privateBad = true
+							}
 						}
 						if !good {
 							okv = false
@@ -367,9 +417,12 @@ func runR15_3(c *Ctx, r *R) {
 					}
 				}
 			}
-			if okv {
+			switch {
+			case okv:
 				r.OK(key, ret.Pos(), "%s", why)
-			} else {
+			case privateBad:
+				r.Bad(key, ret.Pos(), "Lex returns a scanned rune as its own token number without excluding the range in which goyacc numbers the named tokens (>= yyPrivate, U+E000): a private-use rune in the source is parsed as IDENT / INTEGER / STRING / a keyword with the previous token's value - text outside the grammar yields a tree instead of an error")
+			default:
 				r.Bad(key, ret.Pos(), "Lex can return a value that is neither a declared token, a literal rune nor a recorded error")
 			}
 		}
